@@ -30,8 +30,8 @@ CLAIMED = {
             "induction over the chunk list from a two-way splitting lemma for the expect loop; model = implementation compared on "
             "generated sessions under many chunkings incl. all 2^(k-1) chunkings of the last k bytes, and the implementation is compared "
             "with its own unchunked run; VMware workaround checked at message boundaries",
-            "banner handling (_handleInitial) is modelled and compared but its chunk-invariance lemma is not yet in Properties/C01.v; "
-            "Twisted transport trusted; VMware mid-message match is a recorded known finding",
+            "banner phase included (whole-client theorem over _handleInitial + expect loop) for streams the client does not reject; a "
+            "rejected stream calls loseConnection on every delivery and Twisted then stops delivering (trusted); Twisted transport trusted; VMware mid-message match is a recorded known finding",
             "Coq proof (induction over chunk lists, generic expect-engine lemmas) + regenerated formats/expect graph + differential correspondence"),
     "C15": ("Coq theorem about the handler-family model of rfb.RFBClient: for every state, every well-formed pending expectation and "
             "every buffer of bytes 0..255 the expect loop terminates within 3*len+3 handler invocations (potential argument: zero-length "
